@@ -66,6 +66,9 @@ type CacheCase struct {
 	Tasks []TaskSpec        `json:"tasks"`
 	Init  map[string]string `json:"init"`
 	Steps []Step            `json:"steps"`
+	// Links: symbolic links (name -> target, relative to the project) created before the first
+	// step; a dependency path that is a link denotes the content seen through it.
+	Links map[string]string `json:"links,omitempty"`
 }
 
 // Source renders the spokfile of the case.
@@ -232,6 +235,15 @@ func execCache(id string, s *ev.Shard, root string, c CacheCase) *rp.Fail {
 			return &rp.Fail{Sig: "harness", Msg: err.Error()}
 		}
 		cur[f] = fileState{exists: true, content: content}
+	}
+	for name, target := range c.Links {
+		p := filepath.Join(root, filepath.FromSlash(name))
+		if err := os.MkdirAll(filepath.Dir(p), 0o755); err != nil {
+			return &rp.Fail{Sig: "harness", Msg: err.Error()}
+		}
+		if err := os.Symlink(target, p); err != nil {
+			return &rp.Fail{Sig: "harness", Msg: err.Error()}
+		}
 	}
 	src := c.Source()
 	specs := map[string]TaskSpec{}
